@@ -840,6 +840,17 @@ def _tojax(repo, col):
         ok = ok or full
     col.check(ok, R, tj, "to_jax copies every column of the node table", "one jaxnodes entry per column of base.nodes, unconditionally",
               f"to_jax no longer copies all node columns (entries written: {seen_})", node=tj.node)
+    # ... row by row in table order: the copy of a column is the column itself (optionally gathered with the identity arange(len))
+    for s_ in nst:
+        v = s_.value
+        while v.op in ("mcall", "call") and v.name in ("asarray", "array", "astype") and v.args:
+            v = next((a_ for a_ in v.args if a_.op != "free"), v.args[0])
+        if v.op == "sub":
+            ix = v.args[1]
+            ident = ix.op == "mcall" and ix.name == "arange" and len([a_ for a_ in ix.args if a_.op != "free"]) == 1 and \
+                T.find(ix, lambda x: x.op == "call" and x.name == "len") is not None
+            col.check(ident, R, tj, "to_jax keeps the rows of a node column in table order", "jnp.asarray(value)[arange(len(value))]",
+                      f"the column is gathered with `{ix.short(60)}`: row k of jaxnodes is no longer compartment k of .nodes", node=s_.node)
     est = [s_ for s_ in tex.stores if s_.kind == "sub" and s_.base.op == "attr" and s_.base.name == "jaxedges"]
     covered = set()
     for s_ in est:
